@@ -242,6 +242,7 @@ type item struct {
 	uses    map[string]bool
 	axiom   bool // included when any used symbol is in the cone
 	always  bool
+	early   bool // sort declarations: emitted before everything else
 }
 
 type Script struct {
@@ -388,12 +389,52 @@ func (s *Script) Slice(terms ...string) string {
 	}
 	var b strings.Builder
 	for _, it := range s.items {
-		if it.always || inc[it] {
+		if it.always {
+			b.WriteString(it.text)
+			b.WriteByte('\n')
+		}
+	}
+	// datatype declarations in dependency order (a struct may embed another)
+	emitted := map[*item]bool{}
+	var emitSort func(it *item)
+	emitSort = func(it *item) {
+		if emitted[it] {
+			return
+		}
+		emitted[it] = true
+		for u := range it.uses {
+			if d := s.bySym[u]; d != nil && d.early && d != it {
+				if !inc[d] {
+					inc[d] = true
+				}
+				emitSort(d)
+			}
+		}
+		b.WriteString(it.text)
+		b.WriteByte('\n')
+	}
+	for _, it := range s.items {
+		if it.early && inc[it] {
+			emitSort(it)
+		}
+	}
+	for _, it := range s.items {
+		if !it.always && !it.early && inc[it] {
 			b.WriteString(it.text)
 			b.WriteByte('\n')
 		}
 	}
 	return b.String()
+}
+
+// SortItem adds a sort (datatype) declaration.
+func (s *Script) SortItem(text string, defines []string) {
+	it := &item{text: text, defines: defines, uses: map[string]bool{}, early: true}
+	symbolsOf(text, it.uses)
+	for _, d := range defines {
+		delete(it.uses, d)
+	}
+	s.add(it)
 }
 
 func sortedKeys(m map[string]bool) []string {
